@@ -1,7 +1,9 @@
 (* C08 — Persistent identifiers and headers round-trip exactly.
    Only statements closed by [exact]; proofs live in proof/CodecsProofs.v.
-   ReadTTL and NewVolumeId are modelled as REPAIRED in the working tree (counts outside 0..255
-   and unknown unit letters are errors; volume ids are parsed as 32-bit). *)
+   Four decoders are modelled as REPAIRED in the working tree: ReadTTL (counts outside 0..255
+   and unknown unit letters are errors), NewVolumeId (parsed as 32-bit),
+   NewReplicaPlacementFromString (lengths other than 0 and 3 are errors) and ReadSuperBlock
+   (the extra metadata is read from the file). *)
 From Coq Require Import List NArith ZArith Bool.
 From SW Require Import model.Needle model.Codecs proof.NeedleProofs proof.CodecsProofs.
 Import ListNotations.
@@ -24,19 +26,15 @@ Theorem c08_rp_byte_reject : forall b r, b < 256 -> rp_from_byte b = Some r ->
 Proof. exact rp_byte_reject. Qed.
 Print Assumptions c08_rp_byte_reject.
 
-(* strings: FULL statement "an accepted string is the encoding of the placement returned" holds
-   for 3-character strings (trigger of known finding 1: length <> 3) ... *)
-Theorem c08_rp_string_reject_partial : forall s r, rp_len_trigger s = false ->
-  rp_from_string s = Some r -> rp_valid r = true /\ rp_string r = s.
-Proof. exact rp_string_reject_partial. Qed.
-Print Assumptions c08_rp_string_reject_partial.
+(* strings (repaired code: lengths other than 0 and 3 are errors), FULL statement: an accepted
+   string is the empty string (the default placement 000) or exactly the encoding of the valid
+   placement returned *)
+Theorem c08_rp_string_reject : forall s r, rp_from_string s = Some r ->
+  rp_valid r = true /\ ((s = [] /\ r = (0, 0, 0)) \/ rp_string r = s).
+Proof. exact rp_string_reject. Qed.
+Print Assumptions c08_rp_string_reject.
 
-(* ... and is false in general: "1" is accepted and decoded to placement 100 *)
-Theorem c08_rp_string_reject_refuted : exists s r, rp_from_string s = Some r /\ rp_string r <> s.
-Proof. exact rp_string_reject_refuted. Qed.
-Print Assumptions c08_rp_string_reject_refuted.
-
-(* what does hold for every accepted string: only the characters '0'..'2' *)
+(* every accepted string consists of the characters '0'..'2' only *)
 Theorem c08_rp_string_chars : forall s r, rp_from_string s = Some r -> Forall (fun c => 48 <= c <= 50) s.
 Proof. exact rp_string_chars. Qed.
 Print Assumptions c08_rp_string_chars.
@@ -102,25 +100,28 @@ Proof. exact parse_key_cookie_sound. Qed.
 Print Assumptions c08_key_cookie_reject.
 
 (* ---------- super block ---------- *)
-(* FULL statement restricted by the trigger of known finding 0 (extra metadata present) *)
-Theorem c08_superblock_roundtrip_partial : forall s tail, sb_has_extra s = false -> sb_ok s ->
-  sb_read (sb_bytes s ++ tail) = Some s.
-Proof. exact sb_roundtrip_partial. Qed.
-Print Assumptions c08_superblock_roundtrip_partial.
+(* FULL round trip (repaired code: the extra bytes are read from the file), with or without
+   extra metadata, whatever follows the super block in the file.  [pb] is the protobuf oracle
+   (Marshal after Unmarshal); its only hypothesis is the round-trip law on the bytes that
+   proto.Marshal produced for this super block. *)
+Theorem c08_superblock_roundtrip : forall pb s tail, sb_ok s -> len (sb_extra s) < 65536 ->
+  (sb_has_extra s = true -> pb (sb_extra s) = Some (sb_extra s)) ->
+  sb_read pb (sb_bytes s ++ tail) = Some s.
+Proof. exact sb_roundtrip. Qed.
+Print Assumptions c08_superblock_roundtrip.
 
-Theorem c08_superblock_roundtrip_refuted : exists s, sb_ok s /\ len (sb_extra s) < 65536 /\
-  forall tail, sb_read (sb_bytes s ++ tail) <> Some s.
-Proof. exact sb_roundtrip_refuted. Qed.
-Print Assumptions c08_superblock_roundtrip_refuted.
-
-(* faithful variant: what ReadSuperBlock returns for every well-formed super block *)
-Theorem c08_superblock_read : forall s tail, sb_ok s -> len (sb_extra s) < 65536 ->
-  sb_read (sb_bytes s ++ tail) =
-    if sb_has_extra s then None
-    else Some {| sb_version := sb_version s; sb_rp := sb_rp s; sb_ttl := sb_ttl s;
-                 sb_compaction := sb_compaction s; sb_extra := [] |}.
-Proof. exact sb_read_bytes. Qed.
-Print Assumptions c08_superblock_read.
+(* rejection: whatever ReadSuperBlock accepts is the super block the header bytes denote; a
+   truncated extra or one that protobuf rejects is an error *)
+Theorem c08_superblock_reject : forall pb file s, sb_read pb file = Some s ->
+  8 <= len file /\ rp_from_byte (nth 1 file 0) = Some (sb_rp s) /\
+  sb_version s = nth 0 file 0 /\ sb_ttl s = (nth 2 file 0, nth 3 file 0) /\
+  sb_compaction s = be_decode (takeN 2 (dropN 4 file)) /\
+  let extra_size := be_decode (takeN 2 (dropN 6 file)) in
+  (if 0 <? extra_size
+   then len (takeN extra_size (dropN 8 file)) = extra_size /\ pb (takeN extra_size (dropN 8 file)) = Some (sb_extra s)
+   else sb_extra s = []).
+Proof. exact sb_read_sound. Qed.
+Print Assumptions c08_superblock_reject.
 
 (* ---------- index entries ---------- *)
 Theorem c08_idx_roundtrip : forall key off size, key < 2 ^ 64 -> off < 2 ^ 32 ->
@@ -145,6 +146,8 @@ Example c08_reject_examples :
   /\ new_volume_id [] = None
   /\ parse_file_id [51; 44; 48; 49; 54; 51; 55; 48; 51; 122; 100; 54] = None  (* "3,0163703zd6" *)
   /\ rp_from_string [48; 48; 51] = None        (* "003" *)
+  /\ rp_from_string [49] = None                (* "1" *)
+  /\ rp_from_string [48; 48; 49; 49] = None    (* "0011" *)
   /\ rp_from_byte 3 = None /\ rp_from_byte 255 = None.
 Proof. exact reject_examples. Qed.
 
@@ -152,7 +155,9 @@ Example c08_example :
   fid_string 3 1 1668298710 = [51; 44; 48; 49; 54; 51; 55; 48; 51; 55; 100; 54]   (* "3,01637037d6" *)
   /\ parse_file_id [51; 44; 48; 49; 54; 51; 55; 48; 51; 55; 100; 54] = Some (3, 1, 1668298710)
   /\ read_ttl [49; 53; 100] = Some (15, 3) /\ ttl_string (15, 3) = [49; 53; 100]     (* "15d" *)
-  /\ sb_read (sb_bytes {| sb_version := 3; sb_rp := (0, 1, 2); sb_ttl := (15, 3); sb_compaction := 7; sb_extra := [] |})
-     = Some {| sb_version := 3; sb_rp := (0, 1, 2); sb_ttl := (15, 3); sb_compaction := 7; sb_extra := [] |}
+  /\ sb_read (fun b => Some b)
+       (sb_bytes {| sb_version := 3; sb_rp := (0, 1, 2); sb_ttl := (15, 3); sb_compaction := 7; sb_extra := [10; 9; 8] |} ++ [1; 2])
+     = Some {| sb_version := 3; sb_rp := (0, 1, 2); sb_ttl := (15, 3); sb_compaction := 7; sb_extra := [10; 9; 8] |}
+  /\ sb_read (fun b => Some b) [3; 12; 15; 3; 0; 7; 0; 3; 10; 9] = None      (* truncated extra *)
   /\ idx_parse (idx_bytes 5 9 (-1)) = (5, 9, (-1)%Z).
 Proof. vm_compute. repeat split; reflexivity. Qed.
